@@ -75,6 +75,9 @@ fn key_num(port: u16) -> String {
 }
 
 pub fn run(args: &Args) {
+    if args.extra.get("stress").is_some() {
+        return run_stress(args);
+    }
     aquatic_common::verif::set_probe(Some(Box::new(|name, _| {
         if name.starts_with("udp_announce_") || name.starts_with("udp_scrape_") || name.starts_with("udp_clean_") {
             pause_here();
@@ -296,4 +299,80 @@ pub fn run(args: &Args) {
         }
     });
     println!("STAT {{\"cases_with_clean_and_announce_on_the_emptied_torrent\": {}}}", lost_window_cases);
+}
+
+/// `udp-conc --stress 1`: free-running threads (no scheduler, no probes): in every round three
+/// threads, released together, announce three different peers for a torrent that is not in
+/// the map yet; then a quiescent scrape. The Coq monitor `lin_code` looks for a sequential
+/// order with the same replies.
+fn run_stress(args: &Args) {
+    use std::sync::atomic::{AtomicUsize, Ordering};
+    let config = Arc::new({
+        let mut c = Config::default();
+        c.protocol.max_response_peers = 30;
+        c
+    });
+    let maps = Arc::new(TorrentMaps::default());
+    crate::drive(args, 0xc05, |rng, _keep, seed, header, items| {
+        // a fresh torrent per round; its first byte picks the shard
+        let mut hash = [0u8; 20];
+        for b in hash.iter_mut() {
+            *b = rng.below(256) as u8;
+        }
+        let n = 3usize;
+        let gate = Arc::new(AtomicUsize::new(0));
+        let mut handles = Vec::new();
+        for i in 0..n {
+            let (maps, config, gate) = (maps.clone(), config.clone(), gate.clone());
+            let tseed = seed ^ ((i as u64) << 8);
+            handles.push(std::thread::spawn(move || {
+                let (tx, _rx) = crossbeam_channel::unbounded();
+                let mut rng = SmallRng::seed_from_u64(tseed);
+                let port = 6881 + i as u16;
+                let request = AnnounceRequest {
+                    connection_id: ConnectionId::new(7),
+                    action_placeholder: Default::default(),
+                    transaction_id: TransactionId::new(9),
+                    info_hash: InfoHash(hash),
+                    peer_id: PeerId([port as u8; 20]),
+                    bytes_downloaded: NumberOfBytes::new(0),
+                    bytes_uploaded: NumberOfBytes::new(0),
+                    bytes_left: NumberOfBytes::new(1),
+                    event: AnnounceEvent::Started,
+                    ip_address: Ipv4AddrBytes([0; 4]),
+                    key: PeerKey::new(0),
+                    peers_wanted: NumberOfPeers::new(50),
+                    port: Port::new(NonZeroU16::new(port).unwrap()),
+                };
+                let src = CanonicalSocketAddr::new(SocketAddr::new(IpAddr::V4(Ipv4Addr::new(10, 0, 0, 1)), 40000));
+                let vu = ValidUntil::new_raw(SecondsSinceServerStart::new_raw(1000));
+                gate.fetch_add(1, Ordering::SeqCst);
+                while gate.load(Ordering::SeqCst) < n {
+                    std::hint::spin_loop();
+                }
+                match maps.announce(&config, &tx, &mut rng, &request, src, vu) {
+                    Response::AnnounceIpv4(r) => {
+                        let peers: Vec<String> = r.peers.iter().map(|p| key_num(p.port.0.get())).collect();
+                        format!("[EAnnounce {} {} {}]", cq::nat(r.fixed.seeders.0.get()), cq::nat(r.fixed.leechers.0.get()), cq::list(&peers))
+                    }
+                    _ => "[]".to_string(),
+                }
+            }));
+        }
+        let mut obs: Vec<String> = handles.into_iter().map(|h| h.join().unwrap()).collect();
+        let request = ScrapeRequest { connection_id: ConnectionId::new(7), transaction_id: TransactionId::new(9), info_hashes: vec![InfoHash(hash)] };
+        let src = CanonicalSocketAddr::new(SocketAddr::new(IpAddr::V4(Ipv4Addr::new(10, 9, 9, 9)), 1));
+        let resp = maps.scrape(request, src);
+        let st = &resp.torrent_stats[0];
+        obs.push(format!("[EScrape {} {}; EScrapeEnd]", cq::nat(st.seeders.0.get()), cq::nat(st.leechers.0.get())));
+        let h = cq::id20(&hash);
+        let mut op_terms: Vec<String> = (0..n)
+            .map(|i| format!("OAnn {} (mkAargs {} Leeching {} 1000%N 30 0 0)", h, key_num(6881 + i as u16), cq::id20(&[(6881 + i as u16) as u8; 20])))
+            .collect();
+        op_terms.push(format!("OScr [{}]", h));
+        *header = format!("{}, [], 0%nat", cq::list(&op_terms));
+        for o in obs {
+            items.push(o);
+        }
+    });
 }
